@@ -77,6 +77,8 @@ impl Token {
         })
         .min_by_key(|(i, _, _)| *i)
         {
+            #[cfg(feature = "verif")]
+            crate::verif::tick(crate::verif::SITE_TOKEN_SCAN);
             if idx == 0 {
                 v.push_back(token);
                 s = &s[len..];
